@@ -58,18 +58,14 @@ impl ForNextCounterMatch {
             pos,
         }) = &f.next_counter
         {
-            match var_expr {
-                Expression::Variable(var_name, _) => match next_var_expr {
-                    Expression::Variable(next_var_name, _) => {
-                        if var_name == next_var_name {
-                            Ok(())
-                        } else {
-                            Err(LintError::NextWithoutFor.at(pos))
-                        }
-                    }
-                    _ => unimplemented!(),
-                },
-                _ => unimplemented!(),
+            match (var_expr, next_var_expr) {
+                (Expression::Variable(var_name, _), Expression::Variable(next_var_name, _))
+                    if var_name == next_var_name =>
+                {
+                    Ok(())
+                }
+                // a different variable, or something that is not a plain variable at all
+                _ => Err(LintError::NextWithoutFor.at(pos)),
             }
         } else {
             // does not have a NEXT variable
